@@ -1141,7 +1141,20 @@ def nt_survives(tc_c, nt_before, path="result"):
     return out
 
 
+def resolve_refs(c, post):
+    """identity markers -> content: the subject itself is its state after the call; a passed-through argument is a wildcard"""
+    if not isinstance(c, list) or not c:
+        return c
+    if c[0] == "REF":
+        if c[1] in ("SELF", "SELFTD"):
+            return post
+        return ["REFARG"]
+    return [resolve_refs(x, post) if isinstance(x, list) else x for x in c]
+
+
 def first_diff(a, b, path=""):
+    if a == ["REFARG"] or b == ["REFARG"]:
+        return None
     if type(a) is not type(b):
         return f"{path}: {repr(a)[:80]} != {repr(b)[:80]}"
     if isinstance(a, list):
@@ -1197,6 +1210,10 @@ def judge(case, o_tc, o_td, o_td2):
             return "uninformative", [], flags + ["reference-flaky"]
         if o_tc["status"] == "raise":
             return "ok", [], flags + ["both-raise"]
+        a0 = (case.get("args") or [None])[0]
+        if case["name"] in ("update", "update_", "update_at_") and isinstance(a0, list) and a0 and (a0[0] == "dct" or a0[:2] == ["like", "dict"]):
+            # a plain dict is first converted by the class's own typed constructor (from_dict with the instance's batch size)
+            return "ok", [], flags + ["typed-dict-conversion"]
         return "fail", [f"the tensordict raises {o_td['exc']}, the tensorclass returns {short(o_tc.get('res'))}"], flags + ["td-raises-only"]
     if o_td2["status"] == "raise":
         return "uninformative", [], flags + ["reference-flaky"]
@@ -1230,8 +1247,7 @@ def judge(case, o_tc, o_td, o_td2):
     # (1) content
     ntkeys = [k for k, v in (o_tc.get("nt_before") or [])]
     a, b = erase(res), erase(ref)
-    if ref == ["REF", "SELF"] and isinstance(res, list) and res and res[0] == "TC":
-        b = erase(o_td.get("post"))     # a fresh instance around the tensordict that returned itself
+    a, b = resolve_refs(a, erase(o_tc.get("post"))), resolve_refs(b, erase(o_td.get("post")))
     a = drop_nt_fields(a, ntkeys, b)
     pa, pb = erase(o_tc.get("post")), erase(o_td.get("post"))
     a, b, pa, pb = strip_lock(a), strip_lock(b), strip_lock(pa), strip_lock(pb)   # the lock flag is not an observable of C15
